@@ -8,8 +8,7 @@
 //!   dropped; after every operation the result and everything that arrived on every channel is
 //!   printed. A probe with a *full* protocol channel observes whether the manager is told before the
 //!   protocols have been served.
-//!   case  = 0 n nops (op a b)*        op: 1 kill protocol a | 2 report_connection_established
-//!           (b = oracle: set of protocols that were told, filled in by the harness) | 3
+//!   case  = 0 n nops (op a b)*        op: 1 kill protocol a | 2 report_connection_established | 3
 //!           report_connection_closed | 4 report_substream_open_failure for protocol a | 5 kill the
 //!           manager receiver | 6 report_connection_closed while the channel of protocol a is full
 //!   trace = 1 (rc cnt (proto kind)* mgr_cnt mgr_early)*
@@ -21,11 +20,10 @@
 //!   B, user protocols of B. At the end both applications call `dial(peer)`.
 //!   case  = 1 n cfg nsteps (op a b c)*      cfg: bit 0 = keep-alive 1 s (idle-expiry scenarios),
 //!           bits 1-2 = transport (0 TCP, 1 WebSocket, 2 QUIC — only with the `quic` feature)
-//!           op: 14 A dials B while protocol b of node a exits (c = oracle: 0 the connection was
-//!           accepted first, else 1 + 2*maskA + 256*maskB; the racing observer is not printed) |
+//!           op: 14 A dials B while protocol b of node a exits (either order; the racing protocol's
+//!           own observer is not printed) |
 //!           10 protocol b of node a exits (b = n+1: the notification handle is dropped, n+2:
-//!           the request-response handle) | 11 A dials B (b, c = oracle: protocols of A / B that
-//!           logged Established, filled in when the node has a dead protocol) | 12 protocol b of node
+//!           the request-response handle) | 11 A dials B | 12 protocol b of node
 //!           a opens a substream | 13 the same and exits immediately | 15 protocol b of node a
 //!           force-closes | 16 the proxy cuts the link | 17 wait for idle expiry | 18 node B is shut
 //!           down (its runtime is killed)
@@ -187,12 +185,8 @@ fn run_unit(case: &mut [u64]) -> Vec<u64> {
                 let peer = u.peer;
                 let rc = rt.block_on(async { set.verif_report_connection_established(peer, endpoint).await });
                 tr.push(rc.is_err() as u64);
-                let mask = u.drain(&mut tr);
+                u.drain(&mut tr);
                 tr.push(0);
-                // oracle: with a dead receiver the set of protocols served before the failure depends
-                // on the HashMap order; it is handed to the model, which validates it
-                let any_dead = u.rxs.iter().any(|r| r.is_none());
-                case[5 + 3 * k] = if any_dead { mask } else { 0 };
             }
             3 => {
                 let (mut set, id) = u.protocol_set();
@@ -491,11 +485,8 @@ impl Node {
         Node { rt: Some(rt), peer, addr, app, plogs, pcmd, notif: Some(notif), rr: Some(rr), ctl: ctl_tx, seen: vec![0; nobs] }
     }
 
-    /// new events of every observer since the last call: (cnt ev*) per observer; returns the set of
-    /// user protocols that logged Established
-    fn dump(&mut self, out: &mut Vec<u64>, blank: Option<usize>) -> (u64, bool) {
-        let mut mask = 0;
-        let mut app_est = false;
+    /// new events of every observer since the last call: (cnt ev*) per observer
+    fn dump(&mut self, out: &mut Vec<u64>, blank: Option<usize>) {
         let logs: Vec<Log> = std::iter::once(self.app.clone()).chain(self.plogs.iter().cloned()).collect();
         for (k, log) in logs.iter().enumerate() {
             let l = log.lock().unwrap();
@@ -507,16 +498,9 @@ impl Node {
             } else {
                 out.push(new.len() as u64);
                 out.extend_from_slice(new);
-                if k > 0 && new.contains(&1) {
-                    mask |= 1 << (k - 1);
-                }
-                if k == 0 && new.contains(&1) {
-                    app_est = true;
-                }
             }
             self.seen[k] = l.len();
         }
-        (mask, app_est)
     }
 
     fn alive(&self) -> bool {
@@ -749,17 +733,8 @@ async fn run_e2e(mut case: Vec<u64>) -> (Vec<u64>, Vec<u64>) {
         settle(&tick, before, first).await;
         tr.push(rc);
         let blank = |node: u64| if op == 14 && x == node && y <= n { Some(y + 1) } else { None };
-        let (ma, ea) = a.dump(&mut tr, blank(0));
-        let (mb, eb) = b.dump(&mut tr, blank(1));
-        if op == 11 {
-            case[6 + 4 * k] = if a.any_dead() { ma } else { 0 };
-            case[7 + 4 * k] = if b.any_dead() { mb } else { 0 };
-        }
-        if op == 14 {
-            // oracle: did the accept of the node whose protocol exits come first (0) or the exit (1)?
-            let accepted = if x == 0 { ea } else { eb };
-            case[7 + 4 * k] = if accepted { 0 } else { 1 | (ma << 1) | (mb << 8) };
-        }
+        a.dump(&mut tr, blank(0));
+        b.dump(&mut tr, blank(1));
     }
     // afterwards: can the peer be dialed again?
     for (node, peer) in [(&a, b.peer), (&b, a.peer)] {
@@ -789,7 +764,7 @@ fn gen_e2e(rng: &mut Rng, thorough: bool, transports: &[u64]) -> Vec<u64> {
     let short = rng.chance(25);
     let mut st = GenSt { alive: [vec![true; n + 3], vec![true; n + 3]], connected: false, b_up: true };
     let mut steps: Vec<[u64; 4]> = Vec::new();
-    let dead = |st: &GenSt, x: usize| st.alive[x].iter().any(|a| !a);
+    let all_dead = |st: &GenSt| st.alive[0].iter().all(|a| !a) || st.alive[1].iter().all(|a| !a);
     if short {
         // idle expiry: connect, at most one action, wait
         if rng.chance(20) {
@@ -799,26 +774,22 @@ fn gen_e2e(rng: &mut Rng, thorough: bool, transports: &[u64]) -> Vec<u64> {
             steps.push([10, x as u64, y as u64, 0]);
         }
         steps.push([11, 0, 0, 0]);
-        if !dead(&st, 0) && !dead(&st, 1) {
-            match rng.below(4) {
-                0 => {
-                    let x = rng.below(2);
-                    steps.push([12, x, rng.below(n as u64 + 1), 0]);
-                }
-                1 => {
-                    let x = rng.below(2) as usize;
-                    let y = rng.below(n as u64 + 3) as usize;
-                    st.alive[x][y] = false;
-                    steps.push([10, x as u64, y as u64, 0]);
-                }
-                _ => {}
+        match rng.below(4) {
+            0 => {
+                let x = rng.below(2);
+                steps.push([12, x, rng.below(n as u64 + 1), 0]);
             }
-            steps.push([17, 0, 0, 0]);
-            if !dead(&st, 0) && !dead(&st, 1) && rng.chance(40) {
-                steps.push([11, 0, 0, 0]);
-            } else if rng.chance(50) {
-                steps.push([11, 0, 0, 0]);
+            1 => {
+                let x = rng.below(2) as usize;
+                let y = rng.below(n as u64 + 3) as usize;
+                st.alive[x][y] = false;
+                steps.push([10, x as u64, y as u64, 0]);
             }
+            _ => {}
+        }
+        steps.push([17, 0, 0, 0]);
+        if rng.chance(50) {
+            steps.push([11, 0, 0, 0]);
         }
     } else {
         let max = if thorough { rng.range(3, 9) } else { rng.range(2, 7) };
@@ -837,33 +808,16 @@ fn gen_e2e(rng: &mut Rng, thorough: bool, transports: &[u64]) -> Vec<u64> {
                     // an action without a connection: refused
                     let x = rng.below(2);
                     steps.push([if rng.chance(50) { 12 } else { 15 }, x, rng.below(n as u64 + 1), 0]);
-                } else if r < 32 && st.b_up && !dead(&st, 0) && !dead(&st, 1) {
-                    // a protocol exits during the handshake; whichever comes first, only actions
-                    // that make sense in both outcomes follow
+                } else if r < 32 && st.b_up {
+                    // a protocol exits during the handshake (either order)
                     let x = rng.below(2) as usize;
                     let y = rng.below(n as u64 + 3) as usize;
                     st.alive[x][y] = false;
                     steps.push([14, x as u64, y as u64, 0]);
-                    for _ in 0..rng.below(3) {
-                        let x = rng.below(2) as usize;
-                        let live: Vec<usize> = (0..=n).filter(|&i| st.alive[x][i]).collect();
-                        if live.is_empty() {
-                            break;
-                        }
-                        match rng.below(3) {
-                            0 => steps.push([12, x as u64, rng.pick(&live) as u64, 0]),
-                            1 => steps.push([15, x as u64, rng.pick(&live) as u64, 0]),
-                            _ => steps.push([16, 0, 0, 0]),
-                        }
-                    }
-                    stop = true;
+                    st.connected = !all_dead(&st);
                 } else if st.b_up {
                     steps.push([11, 0, 0, 0]);
-                    if dead(&st, 0) || dead(&st, 1) {
-                        stop = true; // the accept fails on that node (F-C07b); nothing follows
-                    } else {
-                        st.connected = true;
-                    }
+                    st.connected = !all_dead(&st);
                 } else {
                     // B is gone: the dial fails
                     if rng.chance(60) {
